@@ -136,7 +136,7 @@ def ref_consistent(stn):
     return True
 
 
-def ref_dense(stn, data):
+def ref_dense(stn, data, by_tid=None):
     """defining sum by brute force from the network's own description (no einsum):
     one index per bond; every tensor entry is gathered on the full index grid; the open axes
     scatter-add into the output at the index of their bond"""
@@ -153,7 +153,7 @@ def ref_dense(stn, data):
     for k, t in T.items():
         if k == VT:
             continue
-        a = np.asarray(data[t.dataref])
+        a = np.asarray(by_tid[k] if by_tid is not None and k in by_tid else data[t.dataref])
         if a.ndim == 0:
             total = total * a
         else:
@@ -322,6 +322,73 @@ def gen_net(rng, nt_max=6, open_max=4, cap=60000, ids="random", refprefix="", al
     if any(x < 0 for x in tids) or any(x < 0 for x in bidl):
         feats.add("negative-ids")
     return {"tensors": tl, "bonds": bonds, "data": data}, feats
+
+
+def gen_open_net(rng, order=None):
+    """networks that stress the OPEN-AXIS bookkeeping: 0-2 real tensors; open axes that are alone on a
+    bond of a tensor, groups of 2-3 open axes sharing a bond with a tensor leg, and identity wires
+    (2-3 open axes on a bond without any tensor) - several of them, every dimension drawn
+    independently from {1,2,3}; the logical order of the open axes is a random interleaving, or
+    (order='wires-last' / 'wires-first') all identity wires after / before everything else."""
+    nt = rng.choice([0, 1, 1, 1, 2, 2])
+    groups = []            # (kind, dim, [legs of real tensors], number of open axes)
+    legs = {t: 0 for t in range(nt)}
+    def newleg(t):
+        legs[t] += 1
+        return (t, legs[t] - 1)
+    for t in range(nt):
+        for _ in range(rng.randint(1, 3)):
+            m = rng.choice([1, 1, 2, 2, 3])
+            groups.append(("real", rng.choice([1, 2, 3]), [newleg(t)], m))
+    if nt == 2 and rng.random() < 0.7:
+        groups.append(("real", rng.choice([1, 2, 3]), [newleg(0), newleg(1)], rng.choice([0, 0, 1, 2])))
+    if nt and rng.random() < 0.3:
+        t = rng.randrange(nt)
+        groups.append(("real", rng.choice([1, 2, 3]), [newleg(t), newleg(t)], rng.choice([0, 1])))    # self-trace / diagonal
+    for _ in range(rng.choice([1, 1, 2, 3]) if nt else rng.choice([1, 2, 3])):
+        groups.append(("wire", rng.choice([1, 2, 3]), [], rng.choice([2, 2, 3])))
+    bid_pool = rng.sample(range(-8, 20), len(groups))
+    tid_pool = rng.sample([x for x in range(-6, 12) if x != VT], nt)
+    # logical order of the open axes
+    opens = [(gi, g[0]) for gi, g in enumerate(groups) for _ in range(g[3])]
+    rng.shuffle(opens)
+    if order == "wires-last":
+        opens = [o for o in opens if o[1] != "wire"] + [o for o in opens if o[1] == "wire"]
+    elif order == "wires-first":
+        opens = [o for o in opens if o[1] == "wire"] + [o for o in opens if o[1] != "wire"]
+    shapes = {t: [None] * legs[t] for t in range(nt)}
+    bids = {t: [None] * legs[t] for t in range(nt)}
+    for gi, (kind, d, lg, m) in enumerate(groups):
+        for (t, a) in lg:
+            shapes[t][a], bids[t][a] = d, bid_pool[gi]
+    vshape = [groups[gi][1] for gi, _ in opens]
+    vbids = [bid_pool[gi] for gi, _ in opens]
+    data = {}
+    tl = []
+    for t in range(nt):
+        data["o%d" % t] = rand_data(rng, shapes[t], rng.random() < 0.2)
+        tl.append([tid_pool[t], shapes[t], bids[t], "o%d" % t])
+    rng.shuffle(tl)
+    tl.insert(rng.randint(0, len(tl)), [VT, vshape, vbids, None])
+    feats = {"open-structure", "idle-wire"}
+    if any(g[0] == "real" and g[3] >= 2 for g in groups):
+        feats.add("shared-open")
+    if any(d == 1 for _, d, _, _ in groups):
+        feats.add("dimension-1")
+    # does an identity wire come after a repeated open bond?
+    seen, rep = set(), False
+    for gi, kind in opens:
+        if kind == "wire" and rep:
+            feats.add("wire-after-repeated-open-bond")
+        if gi in seen:
+            rep = True
+        seen.add(gi)
+    p = 1
+    for g in groups:
+        p *= g[1] ** max(1, g[3])
+    if p > 20000:
+        return gen_open_net(rng, order)
+    return {"tensors": tl, "bonds": None, "data": data}, feats
 
 
 def all_scaffolds(tids):
